@@ -15,5 +15,14 @@ func main() {
 		nm = 70
 	}
 	grp.RunAllMulti(run, []string{"C07:", "C12:group"}, nm)
+	// one member, two subscribed topics, handlers that linger after their claim's channel closed (oracles only)
+	nx := run.N / 8
+	if run.N == 0 {
+		nx = 32
+		if run.Tier == "thorough" {
+			nx = 400
+		}
+	}
+	grp.RunAllExtra(run, []string{"C07:", "C12:group"}, nx)
 	run.Finish(grp.Rule + " || " + grp.RuleMulti)
 }
